@@ -243,3 +243,41 @@ func vh_C14_UtilInstance() {
 	vfAssert("caller-got-every-answer-in-order", len(got) == 2 && got[0] == interface{}(y1) && got[1] == interface{}(y2))
 	vfReach("end")
 }
+
+// StartWithVal (or Start) on a coroutine that is already running does nothing: no phantom request is queued, so the
+// pairing of later requests is not shifted
+func vh_C14_RestartWhileRunning() {
+	var target, caller *CorDef[int]
+	v0, v1, x1, x2, y0, y1, y2 := vfInt("v0"), vfInt("v1"), vfInt("x1"), vfInt("x2"), vfInt("y0"), vfInt("y1"), vfInt("y2")
+	var seen, got []int
+	target = CorNewGenerics[int](func() {
+		seen = append(seen, target.YieldRef(y0))
+		seen = append(seen, target.YieldRef(y1))
+		seen = append(seen, target.YieldRef(y2))
+	})
+	caller = CorNewGenerics[int](func() {
+		got = append(got, caller.YieldFrom(target, x1))
+		got = append(got, caller.YieldFrom(target, x2))
+	})
+	if !vfNoPanic("nopanic", func() {
+		target.StartWithVal(v0)
+		vfQuiesce()
+		switch vfChoose("again", 3) {
+		case 0:
+			target.StartWithVal(v1)
+		case 1:
+			target.Start()
+		default:
+			target.Start()
+			target.StartWithVal(v1)
+		}
+		caller.Start()
+		vfQuiesce()
+	}) {
+		return
+	}
+	vfAssert("startwithval-feeds-first-yieldref", len(seen) >= 1 && seen[0] == v0)
+	vfAssert("target-saw-every-request", len(seen) == 3 && seen[1] == x1 && seen[2] == x2)
+	vfAssert("caller-got-every-answer-in-order", len(got) == 2 && got[0] == y1 && got[1] == y2)
+	vfReach("end")
+}
